@@ -33,7 +33,10 @@ def scenario(G, K, mode):
             if mode == "sf":
                 r = b.run("create", root="R", h=req, sf=[frel])
             elif mode == "nested" and g == 0:
-                r = b.run("create", root="R/A", h=req)
+                r = b.run("create", root="R/A", h=req, n=True)
+            elif mode == "nested":
+                # -n: directory hashes are irrelevant here and would make every ancestor hash (and its sort position) symbolic
+                r = b.run("create", root="R", h=req, n=True)
             else:
                 r = b.run("create", root="R", h=req)
             ms = b.manifests(hist)
@@ -97,7 +100,7 @@ def harnesses(tier):
     if tier == "quick":
         cfg = [(3, 3, "folder"), (4, 2, "folder"), (2, 3, "sf"), (2, 2, "nested")]
     else:
-        cfg = [(4, 3, "folder"), (3, 4, "folder"), (3, 3, "sf"), (3, 3, "nested")]
+        cfg = [(4, 3, "folder"), (3, 4, "folder"), (5, 2, "folder"), (4, 3, "sf"), (4, 3, "nested")]
     for G, K, mode in cfg:
         hs.append(Harness("c04-%s-G%d-K%d" % (mode, G, K), scenario(G, K, mode), frontier=5, budget_s=1500,
                           what="%d create runs over one file, each with any non-empty subset of %s, content kept/altered/"
